@@ -66,6 +66,13 @@ NOTES = {
     'C14-A9-traceback-used-as-format-string': 'MISSED by C14 as built then (exception messages without { } %); caught after putting format characters into every injected message',
     'C18-B9-is-registered-walks-mro-instead-of-dispatch': 'MISSED by C18 (and C15) as built then (no printer registered for an ABC with virtual subclasses); caught after adding ABC.register / __subclasshook__ classes whose __repr__ is pretty_repr',
     'C05-B9-contextual-str-result-skips-column-update': 'MISSED by C04-C06 as built then (contextual() occurred only through align / hang); caught after adding lazily produced text and documents (a "lazy" term kind) to the generators and the reference semantics',
+    'C07-A10-midnight-datetime-drops-fold': 'MISSED by C07 as built then (no naive datetime at exactly midnight with fold=1); caught after adding such datetimes (the structural key already compared fold)',
+    'C09-B10-user-comment-dropped-on-already-commented-doc': 'MISSED by C09 as built then (no leaf whose printer attaches a note of its own); caught after adding functions / classes as leaves, with the rule that a user comment replaces the note',
+    'C16-A10-token-lookup-by-equality': 'MISSED by C16 as built then (non-token annotations were a CommentAnnotation and a tuple); caught after adding annotations equal to a token number (13, True, 3.0)',
+    'C14-A10-fallback-through-predicate-printers': 'MISSED by C14 as built then (no predicate printer accepted the instances of the class-registered failing printers); caught after registering one',
+    'C19-A10-pending-names-scanned-in-registration-order': 'first caught by C15 (random hierarchies); C19 itself MISSED it as built then (never two pending by-name ancestors); caught by C19 after adding Shape <- Polygon <- Square',
+    'C13-B10-assoc-context-loses-visited-set': 'MISSED by C13 as built then (no printer used ctx.assoc()); caught after the user-object printer passes a value down with assoc()',
+    'C20-B10-bounded-memo-check-then-lookup': 'MISSED by C20 as built then (no scenario in which one thread performs thousands of operations inside the window of the other). A first attempt - a 2100-distinct-word text printed under EVERY single-preemption schedule - took the quick tier from 2 to 25 minutes and hit the watchdog; caught after adding "heavy" scenarios: thread 0 is preempted only inside the string-measuring functions (escaped_len, str_to_lines, escape_str_for_quote, determine_quote_strategy), 400 schedules in the quick tier',
 }
 for name, note in NOTES.items():
     p = os.path.join(HOME, 'seeded', name, 'meta.json')
@@ -79,11 +86,14 @@ import glob, re
 for p in glob.glob(os.path.join(HOME, 'seeded', '*', 'meta.json')):
     m = json.load(open(p))
     name = m['name']
-    mo = re.match(r'C\d+-[AB](\d?)b?-', name)
+    mo = re.match(r'C\d+-[AB](\d*)b?-', name)
     rnd = mo.group(1) if mo else ''
     if rnd in ('2', '3'):
         m['origin'] = ('round %s: independent sub-agent in its own scratch worktree, given the property text plus a PROSE description of the kind of generated workload '
                        'it had to slip past (no file from /verif) - a deliberately stronger adversary than "property text only"' % rnd)
+    elif rnd == '10':
+        m['origin'] = ('round 10: as rounds 6-9 - independent sub-agent in its own scratch worktree, four property texts (pick two), rarity shown by its own random '
+                       'differential test, one-line summaries of all ideas delivered so far ("do not repeat"), nothing about the checks; asked to finish within ~40 minutes')
     elif rnd == '9':
         m['origin'] = ('round 9: as rounds 6-8 - independent sub-agent in its own scratch worktree, four property texts (pick two), rarity shown by its own random '
                        'differential test, one-line summaries of all ideas delivered so far ("do not repeat"), nothing about the checks')
